@@ -456,6 +456,31 @@ def guarded(fn, *a, _timeout=2.0, **k):
         signal.signal(signal.SIGALRM, old)
 
 
+def apalache(ctx, module, obligations, what, cinit=None):
+    """Discharge proof obligations with Apalache (each: list of command-line arguments).  Recorded in the evidence;
+    an obligation that is not discharged is a machinery error (the specification is wrong, not the code)."""
+    import shutil
+    import subprocess
+    if not shutil.which('apalache-mc'):
+        ctx.note('apalache-mc not found: %s not re-checked in this run' % what)
+        return
+    out_dir = os.path.join(ctx.work, 'apalache-' + module)
+    res = []
+    for args in obligations:
+        t = time.time()
+        cmd = ['apalache-mc', 'check'] + ([('--cinit=' + cinit)] if cinit else []) + args + ['--out-dir=' + out_dir, module + '.tla']
+        try:
+            p = subprocess.run(cmd, cwd=SPEC, stdout=subprocess.PIPE, stderr=subprocess.STDOUT, text=True, timeout=600)
+            ok = 'EXITCODE: OK' in p.stdout
+        except subprocess.TimeoutExpired:
+            ok = False
+        res.append({'args': args, 'ok': ok, 'wall_s': round(time.time() - t, 1)})
+        if not ok:
+            raise MachineryError('Apalache did not discharge %s of %s' % (args, module))
+    shutil.rmtree(out_dir, ignore_errors=True)
+    ctx.leg('apalache-' + module, result=what, obligations=res)
+
+
 def pmap(fn, jobs, workers=None):
     """Parallel map over forked NON-daemonic worker processes (the code under test creates its own
     multiprocessing pools, which daemonic pool workers are not allowed to do)."""
